@@ -10,6 +10,8 @@ if [ "${ROUND:-1}" = 2 ]; then
   SRC="/tmp/w2_$P/mutation/m$K"; TAG="r2m$K"
 elif [ "${ROUND:-1}" = 3 ]; then
   SRC="/tmp/w3_$P/mutation/m$K"; TAG="r3m$K"
+elif [ "${ROUND:-1}" = 4 ]; then
+  SRC="/tmp/w4_$P/mutation/m$K"; TAG="r4m$K"
 else
   SRC="/tmp/wt_$P/mutation/m$K"; TAG="m$K"
 fi
